@@ -25,6 +25,81 @@ def run(ctx: Ctx, chk) -> None:
     chk.run_rule(verdep1, ctx)
     chk.run_rule(except1, ctx)
     chk.run_rule(tables.handler_state_rule, ctx)
+    chk.run_rule(reject_order, ctx)
+
+
+def rejection_order(ctx: Ctx, f) -> set:
+    """{(X, Y)}: rejection X is decided before rejection Y in f (helpers written out).  The decision point of a raise
+    is its nearest dominating branching node (a test, or a statement whose failure leads to the handler that
+    raises); X precedes Y when X's decision point dominates Y's raise and not the other way round - whatever the
+    statement form of the guards."""
+    from ..cfg import CFG
+
+    fi = ctx.inl(f, lambda h: not h.name.startswith("handle_"))
+    g = CFG(fi.node)
+    dom = g.dominators()
+    first: dict = {}
+    for n in g.nodes:
+        a = n.ast
+        if n.kind == "stmt" and isinstance(a, ast.Raise) and a.exc is not None and n in dom:
+            x = a.exc.func if isinstance(a.exc, ast.Call) else a.exc
+            nm = norm(x).rsplit(".", 1)[-1]
+            if nm[:1].isupper() and (nm not in first or len(dom[n]) < len(dom[first[nm]])):
+                first[nm] = n
+
+    def branching(d) -> bool:
+        return d.kind != "dispatch" and len({id(s_) for s_, _ in d.succ}) >= 2
+
+    def below(lca, r) -> int:
+        return sum(1 for d in dom[r] if d is not r and d is not lca and lca in dom[d] and branching(d))
+
+    out = set()
+    for x, rx in first.items():
+        for y, ry in first.items():
+            if x == y:
+                continue
+            common = [d for d in dom[rx] if d in dom[ry]]
+            if not common:
+                continue
+            lca = max(common, key=lambda d: len(dom[d]))  # lowest common dominator: where the two fates part
+            if below(lca, rx) < below(lca, ry):
+                out.add((x, y))
+    return out, set(first)
+
+
+def reject_order(ctx: Ctx, chk) -> None:
+    rule = "REJECT-ORDER"
+    chk.rule(rule, "a handler that a newer protocol class overrides refuses a doubly faulty message for the same reason as the definition it replaces: the rejections both definitions can raise are checked in the same order (an unknown node whose payload is also malformed fails with the same error - and triggers or does not trigger a presentation request - under every version)")
+    I = ctx.I
+    n = 0
+    seen = set()
+    for V in ctx.versions:
+        cls = I.vclass(V, "IncomingMessageHandler")
+        mro = cls.repo_mro()
+        for name in sorted({nm for c in mro for nm in c.methods if nm.startswith("handle_")}):
+            owners = [c for c in mro if name in c.methods]
+            for newer, older in zip(owners, owners[1:]):
+                fa, fb = newer.methods[name][-1], older.methods[name][-1]
+                if (fa, fb) in seen:
+                    continue
+                seen.add((fa, fb))
+                (oa, na), (ob, nb) = rejection_order(ctx, fa), rejection_order(ctx, fb)
+                common = sorted(na & nb)
+                if len(common) < 2:
+                    continue
+                n += 1
+                chk.instance(rule)
+                key = f"{fa.fq}::vs::{fb.cls.module.name.rsplit('.', 1)[-1]}"
+                bad = None
+                for x in common:
+                    for y in common:
+                        if (x, y) in oa and (y, x) in ob:
+                            bad = (x, y)
+                if bad is None:
+                    chk.ok(rule, key, f"{name}: rejections {common} are checked in the same order in both definitions", fa.where)
+                else:
+                    chk.refute(rule, key, f"{fa.qualname} ({fa.module.name.rsplit('.', 1)[-1]}) checks {bad[0]} before {bad[1]}, the definition it overrides ({fb.module.name.rsplit('.', 1)[-1]}) the other way round: a message with both faults is refused with a different error - and with or without a presentation request - depending on the protocol version", fa.where)
+    chk.notes["reject_order_pairs"] = n  # no floor: with no overriding pair that shares two rejections the rule has nothing to compare
 
 
 def vt(s: str):
